@@ -251,6 +251,8 @@ Proof.
       * auto.
     + dest. split; eauto using Ext_trans.
     + rewrite (Ext_other _ _ Hx2) in H. exact H.
+  - (* OGetFURev *)
+    unfold bind. destruct (get_cache_spec s Hwf) as (s1 & -> & Hwf1 & Hx1 & _). destruct locked; unfold ret, raise; auto.
 Qed.
 
 Lemma run_body_spec : forall b s, WF s -> Post s (run_body oracle b s).
